@@ -74,6 +74,15 @@ def _run_job(job):
         inits = []
     ex.init_globals(st, inits)
     ex.watch_after_init = ex.nobj
+    if job['harness'].startswith('PY:'):
+        import pychecks
+        out = pychecks.PYCHECKS[job['harness'][3:]](ex, st, prog)
+        results = [{'kind': 'concrete', 'label': lab, 'pos': '', 'verdict': 'unsat' if ok else 'concrete-fail', 'detail': det,
+                    't': 0.0, 'queries': 0, 'record': None if ok else {'harness': job['harness'], 'params': [], 'inputs': [], 'detail': det}}
+                   for (lab, ok, det) in out]
+        return {'job': job, 'results': results, 'wall': time.time() - t0, 'exec_s': 0.0, 'stats': dict(ex.stats),
+                'dstats': {'solver_s': 0.0, 'queries': 0, 'pair_queries': 0}, 'funcs': sorted(ex.funcs_used), 'notes': [],
+                'ninputs': 0, 'effects': [], 'smt2': [], 'dead': False}
     fn = prog.funcs[pkg + '.' + job['harness']]
     stubs.prepare(ex, st, opts)
     s2, _ = ex.call_fn(fn, list(job['params']), st)
